@@ -44,6 +44,13 @@ Proof. exact (fun o u ops W F => view_write (Flu o u) ops W F). Qed.
 Theorem C22_flush : forall ideal o u, wf_st (Flu o u) ->
   exists u', st_flush ideal (Flu o u) = Flu [] u' /\ view u' = merge_overlay o (view u) /\ wf_st u'.
 Proof. exact view_flush. Qed.
+(* LazyFlushable: reads see only the overlay until the first Flush; that Flush installs the produced
+   store u and makes it equal to u's content overlaid with the unflushed writes *)
+Theorem C22_lazy_before_flush : forall o u, view (Lzy o false u) = merge_overlay o [].
+Proof. reflexivity. Qed.
+Theorem C22_lazy_flush : forall ideal o i u, wf_st (Lzy o i u) ->
+  exists u', st_flush ideal (Lzy o i u) = Lzy [] true u' /\ view u' = merge_overlay o (view u) /\ wf_st u'.
+Proof. exact view_lazy_flush. Qed.
 (* DropNotFlushed restores the parent's view *)
 Theorem C22_drop : forall o u, view (st_drop (Flu o u)) = view u.
 Proof. exact view_drop. Qed.
@@ -85,6 +92,8 @@ Print Assumptions C22_next_step.
 Print Assumptions C22_iterate.
 Print Assumptions C22_write.
 Print Assumptions C22_flush.
+Print Assumptions C22_lazy_before_flush.
+Print Assumptions C22_lazy_flush.
 Print Assumptions C22_drop.
 Print Assumptions C22_not_flushed_pairs.
 Print Assumptions C22_histories.
